@@ -25,7 +25,7 @@ import (
 
 func init() {
 	register(&Prop{ID: "C13", Run: c13Run,
-		Rule: "every case executes one operation through pipeline.New(WithData(doc)).Execute on a generated data document (<= 4 levels, key pool of 6 path-safe keys), along a route named by the case: directly (half of the cases), or through the copy made by CloneWith(ctx) of the operation alone / of the OpSpec / ActionSpec / named step holding it, or as the body of a forEach over one item, one or two levels deep (forEach clones its operations per item) - all predicates and the model comparison are the same on every route, and a fixed table runs every route x every configuration (set strategies x container / leaf / list-item / absent / root targets holding keys the payload lacks, template parseAs x trim, import modes, export formats x target kinds, patch ops, env include / exclude) on one document. set: payload maps x target paths (existing leaf / container / list / list item, absent below a container, absent below a leaf, fresh, empty = root) x strategy {unset, merge, replace, unknown} x nil payload; template: literal / {{ .key }} / failing / YAML-of-a-tree templates x parseAs {unset, none, yaml, unknown} x trim; patch: RFC 6902 ops with pointers derived from the document's own paths, value / valueFrom / from; import: text / binary over random byte strings (incl. invalid UTF-8, empty; half of them led by a special beginning - UTF-8 / UTF-16 / UTF-32 byte order marks whole, doubled and cut, NUL, YAML document / directive / comment / tag / anchor markers, white space and line ends of every kind, quotes, braces, template delimiters, control and magic bytes - and a third ended by a special ending: with and without final line end, CR, NUL, BOM, backslash, padding characters), yaml / json / properties over encoded subtrees, missing file, unknown mode, empty path; roundtrip: export of a container (or the whole document) as yaml / json re-imported at a fresh path; export: every format (incl. unknown) x target kind (nil path, absent, leaf, list, container, via value and via ref); env: synthetic process environment (os.Clearenv + Setenv, restored afterwards) x include / exclude regex pools; lenient: strings without '{{', with unbalanced braces, failing and working templates; rerun (histories): ONE operation object decoded from pipeline YAML (export with path / file given as immediate value or as {ref: leaf}; set / patch / template / import / env with path, file and template fields partly written as templates over data leaves) is executed 2-4 times through one executor while edits between the executions remove the referenced leaf, turn it into a container / list / other scalar, point it elsewhere, change or remove the target, rewrite or unlink the imported files - every execution is judged on the data of that moment (export: documented rule with path and file resolved on the wire document, only the file named at that moment is touched, model exportOp / resolve; all kinds: same outcome, document and files as a fresh operation object decoded from the same YAML on an equal document). A case is non-trivial when the data document has at least two nodes and the operation's outcome is not an argument error (a history: at least two executions with different data); distinct = distinct canonical case JSON (hash).",
+		Rule: "every case executes one operation through pipeline.New(WithData(doc)).Execute on a generated data document (<= 4 levels, key pool of 6 path-safe keys), along a route named by the case: directly (half of the cases), or through the copy made by CloneWith(ctx) of the operation alone / of the OpSpec / ActionSpec / named step holding it, or as the body of a forEach over one item, one or two levels deep (forEach clones its operations per item) - all predicates and the model comparison are the same on every route, and a fixed table runs every route x every configuration (set strategies x container / leaf / list-item / absent / root targets holding keys the payload lacks, template parseAs x trim, import modes, export formats x target kinds, patch ops, env include / exclude) on one document. set: payload maps (also present-but-empty ones, and scalars over a wider value range: texts with white space around them, line ends, letter-case twins, supplementary-plane characters, template look-alikes, typed int64 / uint64) x target paths (existing leaf / container / list / list item, absent below a container, absent below a leaf, fresh, empty = root) x strategy {unset, merge, replace, unknown} x nil payload; template: literal / {{ .key }} / failing / YAML-of-a-tree templates x parseAs {unset, none, yaml, unknown} x trim, and YAML texts whose reading depends on the WHITE SPACE AROUND them (before the first token: tab, spaces, line ends, NBSP, NEL, BOM; after the last: blank lines behind a block scalar with a chomping indicator, tab, NBSP, NEL, document end marker, comment; uniformly indented blocks; texts YAML rejects) x parseAs x trim - direct predicate: what is stored is the YAML parse (yaml.v3 applied by the harness; every scalar a text) of the rendered text with the white space trimmed off when trim is set, a text the parser rejects is an error; patch: RFC 6902 ops with pointers derived from the document's own paths, value / valueFrom / from; import: text / binary over random byte strings (incl. invalid UTF-8, empty; half of them led by a special beginning - UTF-8 / UTF-16 / UTF-32 byte order marks whole, doubled and cut, NUL, YAML document / directive / comment / tag / anchor markers, white space and line ends of every kind, quotes, braces, template delimiters, control and magic bytes - and a third ended by a special ending: with and without final line end, CR, NUL, BOM, backslash, padding characters), yaml / json / properties over encoded subtrees, missing file, unknown mode, empty path; roundtrip: export of a container (or the whole document) as yaml / json re-imported at a fresh path; export: every format (incl. unknown) x target kind (nil path, absent, leaf, list, container, via value and via ref); env: synthetic process environment (os.Clearenv + Setenv, restored afterwards) x include / exclude regex pools; lenient: strings without '{{', with unbalanced braces, failing and working templates; rerun (histories): ONE operation object decoded from pipeline YAML (export with path / file given as immediate value or as {ref: leaf}; set / patch / template / import / env with path, file and template fields partly written as templates over data leaves) is executed 2-4 times through one executor while edits between the executions remove the referenced leaf, turn it into a container / list / other scalar, point it elsewhere, change or remove the target, rewrite or unlink the imported files - every execution is judged on the data of that moment (export: documented rule with path and file resolved on the wire document, only the file named at that moment is touched, model exportOp / resolve; all kinds: same outcome, document and files as a fresh operation object decoded from the same YAML on an equal document). A case is non-trivial when the data document has at least two nodes and the operation's outcome is not an argument error (a history: at least two executions with different data); distinct = distinct canonical case JSON (hash).",
 		Assumptions: []string{
 			"keys and path segments are over [A-Za-z0-9_-] (index groups only where a list item is addressed); scalars are NaN-free and -0-free",
 			"text/template + sprig, yaml.v3, encoding/json, magiconair/properties, regexp and the OS are parameters of the model: the harness feeds the model the renderer's / parser's / decoder's / matcher's actual results for the same inputs",
@@ -340,12 +340,24 @@ func c13Run(c *Ctx) {
 	r := c.Rng
 	g := c13Gen()
 	strategies := []*string{nil, nil, strp("merge"), strp("merge"), strp("replace"), strp("replace"), strp("unknown"), strp("")}
+	// payload scalars over a wider range: texts with leading / trailing white space, line ends, letter-case twins, non-ASCII
+	// (supplementary plane, U+FFFD), text that looks like a template or a number beyond 64 bits; typed integers
+	gp := c13Gen()
+	gp.Strings = []string{"", "s", "t", "1", "true", "a b", "héllo", "x.y", "q[0]", " lead", "trail ", "\t", "a\nb", "\U0001F680", "\ufffd", "T", "~",
+		"12345678901234567890123", "{{ .a }}", "MaxConn", "maxconn", "\u00a0"}
+	gp.Types = []string{"int", "string", "string", "bool", "float64", "int64", "uint64"}
 	for i := 0; i < c.N(2200); i++ {
 		c.Tick()
 		data := g.Doc(r)
 		cs := c13Set{Data: data, Strategy: strategies[r.Intn(len(strategies))], Via: c13PickVia(r)}
 		if r.Intn(12) > 0 {
 			cs.Payload = g.Cont(r, 1)
+			switch r.Intn(12) {
+			case 0, 1, 2: // the VALUE RANGE of a payload's scalars (see gp)
+				cs.Payload = gp.Cont(r, 1)
+			case 3: // present but EMPTY: legal — nothing to merge at the root, an empty container created / kept / merged at a path
+				cs.Payload = plainWire(map[string]any{})
+			}
 			if r.Intn(4) == 0 { // a near-copy of the destination, so that merge meets equal keys
 				if d, ok := c13WireAt(data, c13Target(r, g, data)); ok {
 					if _, isC := wireCont(d); isC {
@@ -383,7 +395,8 @@ func c13Run(c *Ctx) {
 			n := 1 + r.Intn(3)
 			for j := 0; j < n; j++ {
 				if r.Intn(2) == 0 {
-					ct.Parts = append(ct.Parts, c13Part{Lit: pick(r, []string{"text", " padded ", "a: 1", "x\ny", "- 1\n- 2", "{ single }", "}} {", "é", "\t"})})
+					ct.Parts = append(ct.Parts, c13Part{Lit: pick(r, []string{"text", " padded ", "a: 1", "x\ny", "- 1\n- 2", "{ single }", "}} {", "é", "\t",
+						"\u00a0nbsp\u00a0", "\u0085", " \r\n", "\n", "\U0001F680 ", "\ufffd", "T", "12345678901234567890123", "~", "#c", "k: |+\n  kept\n\n"})})
 				} else {
 					ct.Parts = append(ct.Parts, c13Part{Ref: pick(r, g.Keys)})
 				}
@@ -399,6 +412,28 @@ func c13Run(c *Ctx) {
 			ct.Parts = []c13Part{{Raw: pick(r, []string{`{{ "" }}`, `{{ "  " }}`, `{{ .a.b.c.d }}`, `{{ `, `{{ 1 | add 2 }}`, `{{ "a: [1, 2" }}`, `{{ "k: v" }}`})}}
 		default:
 			// empty template
+		}
+		c.Do("template", ct)
+	}
+	// templates whose SURROUNDING WHITE SPACE matters to a YAML parser (the smallest ones first), parseAs x trim
+	for _, ct := range c13TrimYamlBasics() {
+		c.Tick()
+		c.Do("template", ct)
+	}
+	for i := 0; i < c.N(400); i++ {
+		c.Tick()
+		data := g.Doc(r)
+		ct := c13Template{Data: data, Path: c13Target(r, g, data), Via: c13PickVia(r),
+			ParseAs: pick(r, []*string{strp("yaml"), strp("yaml"), strp("yaml"), strp("yaml"), nil, strp("none")}),
+			Trim:    pick(r, []*bool{boolp(true), boolp(true), boolp(true), boolp(false), nil})}
+		pre, body, post := pick(r, c13YamlPre), pick(r, c13YamlBodies), pick(r, c13YamlPost)
+		switch r.Intn(4) {
+		case 0:
+			ct.Parts = []c13Part{{Lit: pre}, {Lit: body}, {Lit: post}}
+		case 1:
+			ct.Parts = []c13Part{{Lit: pre + body}, {Raw: `{{ "" }}`}, {Lit: post}} // the same text, rendered through an action
+		default:
+			ct.Parts = []c13Part{{Lit: pre + body + post}}
 		}
 		c.Do("template", ct)
 	}
@@ -525,8 +560,10 @@ func c13Run(c *Ctx) {
 		}
 		c.Do("export", ce)
 	}
-	names := []string{"YTKV_A", "YTKV_B1", "YTKV_", "HOME_X", "PATHY", "a_b", "X9", "Y"}
-	vals := []string{"", "1", "v", "a=b", "x y", "é", "/usr/bin:/bin", "{{ .a }}", "a.b[0]"}
+	names := []string{"YTKV_A", "YTKV_B1", "YTKV_", "HOME_X", "PATHY", "a_b", "X9", "Y", "ytkv_a", "Ytkv_A", "YTKV_AA", "x9"} // incl. letter-case twins, prefix-related names
+	vals := []string{"", "1", "v", "a=b", "x y", "é", "/usr/bin:/bin", "{{ .a }}", "a.b[0]",
+		// VALUE RANGE: a value is stored exactly as it is — white space around it, `=` in it, line ends, non-ASCII, long digit strings
+		" padded ", "trail\n", "\ttab", "=", "a=b=c", "=lead", "\U0001F680", "\ufffd", "T", "12345678901234567890123", "l1\nl2", "\u00a0", "~"}
 	res := []*string{nil, nil, strp("^YTKV_"), strp("A"), strp("_B"), strp("^$"), strp(".*"), strp("[0-9]$"), strp("X|Y"), strp("^a")}
 	for i := 0; i < c.N(700); i++ {
 		c.Tick()
@@ -875,6 +912,72 @@ func c13EvalSet(c *Ctx, raw []byte) {
 	c.Corr("setOp", map[string]any{"out": tag, "data": after}, m)
 }
 
+// YAML texts whose reading depends on the white space AROUND them: what stands before the first token (a tab is no
+// indentation; NBSP and NEL are white space to strings.TrimSpace and content to YAML; a BOM is neither), a final
+// block scalar with a chomping indicator followed by blank lines, uniformly indented blocks (trimming takes the
+// indentation off the first line only), document markers and comments at the edges.
+var c13YamlPre = []string{"", "", "", "\t", " ", "  ", "\n", "\n\n", "\n  ", "\u00a0", "\u0085", "\r\n", "\t\n", " \t", "\ufeff", "\n\t"}
+var c13YamlBodies = []string{"a: 1", "k: v\nl: w", "- x\n- y", "k: |+\n  text\n", "k: >+\n  folded\n  more\n", "|+\n  top\n", "k: |-\n  strip\n",
+	"k: |\n  clip\n", "k: |2+\n    indented\n", "- |+\n  item\n", "plain", "'quoted '", "\"dq \\n\"", "k: 'v '", "a:\n  b: 1\n  c: [1, 2]", "[1, 2]", "{a: 1}",
+	"a: 1 # comment", "# only a comment", "k: \"\"", "k:", "k: !!str 1", "---\na: 1", "a: 1\n...", "", "a: 1\nb: 2", "  a: 1\n  b: 2", "  - p\n  - q",
+	"k: [1, 2", "a: b: c", "k: v\u00a0", "\u00fc: \U0001F680", "T: f", "n: ~", "n: null", "e: {}", "l: []", "big: 123456789012345678901234", "MaxConn: 1\nmaxconn: 2"}
+var c13YamlPost = []string{"", "", "", "\n", "\n\n\n", " ", "\t", " \n", "\n ", "\u00a0", "\u0085", "\r\n", "\n\t", "\n...\n", "\n# c\n", "\n  \n"}
+
+func c13TrimYamlBasics() []c13Template {
+	var out []c13Template
+	data := plainWire(map[string]any{"k1": "v", "k2": map[string]any{"k3": 1}})
+	for _, t := range []string{"\ta: 1", "k: |+\n  text\n\n\n", "\u00a0a: 1", "k: v\u0085", "  a: 1\n  b: 2", "\n a: 1\n", " - x\n - y\n", "\t\n", "|+\n  top\n\n"} {
+		for _, trim := range []*bool{boolp(true), boolp(false), nil} {
+			for _, pa := range []*string{strp("yaml"), nil} {
+				out = append(out, c13Template{Data: data, Path: "out", ParseAs: pa, Trim: trim, Parts: []c13Part{{Lit: t}}})
+			}
+		}
+	}
+	return out
+}
+
+// c13YamlParseWire: the document a YAML text denotes, as the template operation stores it (every scalar a text — the
+// documented reading of decodeYamlNode —, sequences lists, mappings containers; a text that holds no node at all
+// a null).  ok = false: outside what the predicate judges (aliases, mappings with composite or repeated keys).
+func c13YamlParseWire(n *yaml.Node) (W, bool) {
+	switch n.Kind {
+	case 0:
+		return scalarWire(nil), true
+	case yaml.DocumentNode:
+		if len(n.Content) != 1 {
+			return scalarWire(nil), true
+		}
+		return c13YamlParseWire(n.Content[0])
+	case yaml.ScalarNode:
+		return scalarWire(n.Value), true
+	case yaml.SequenceNode:
+		l := []any{}
+		for _, e := range n.Content {
+			w, ok := c13YamlParseWire(e)
+			if !ok {
+				return nil, false
+			}
+			l = append(l, w)
+		}
+		return l, true
+	case yaml.MappingNode:
+		m := map[string]any{}
+		for i := 0; i+1 < len(n.Content); i += 2 {
+			k := n.Content[i]
+			if _, dup := m[k.Value]; dup || k.Kind != yaml.ScalarNode {
+				return nil, false
+			}
+			w, ok := c13YamlParseWire(n.Content[i+1])
+			if !ok {
+				return nil, false
+			}
+			m[k.Value] = w
+		}
+		return map[string]any{"m": m}, true
+	}
+	return nil, false
+}
+
 func c13TemplateText(p *c13Template) (text string, expect *string, yamlTree W) {
 	var sb, eb, lb strings.Builder // text, expected rendering, text with every action replaced by \x00
 	known := true
@@ -1040,6 +1143,31 @@ func c13EvalTemplate(c *Ctx, raw []byte) {
 	args["trimmed"] = strings.TrimSpace(val)
 	if trim {
 		val = strings.TrimSpace(val)
+	}
+	if !argErr && mode == "yaml" && (expect != nil || rerr == nil) {
+		// "the template operation stores the rendered text, or its YAML parse when so configured, at its path", Trim:
+		// "when true, whitespace is trimmed off the value": what is parsed is the rendered text — known in closed
+		// form, else as the engine renders it — with the white space trimmed off when trim is set, and not anything else
+		// (the untrimmed text reads differently when it starts with a tab, NBSP or NEL, ends in a kept block scalar …).
+		// The YAML parser is a parameter: yaml.v3, applied to that text.  A text it rejects cannot be stored: an error.
+		src := rendered
+		if expect != nil {
+			src = *expect
+		}
+		if t := strings.TrimSpace(src); trim && t != src {
+			src = t
+			c.Dist("template:yaml:trim-removed-something")
+		}
+		var doc yaml.Node
+		if perr := yaml.Unmarshal([]byte(src), &doc); perr != nil {
+			c.Dist("template:yaml:unparsable-text")
+			c.Direct("template-yaml-of-unparsable-text-is-an-error", tag == "err", map[string]any{"tag": tag, "text": src, "trim": trim, "yaml": perr.Error()})
+		} else if wantW, ok := c13YamlParseWire(&doc); ok {
+			c.Dist("template:yaml:parse-compared")
+			got, gok := c13WireAt(after, p.Path)
+			c.Direct("template-stores-yaml-parse-of-the-(trimmed)-rendered-text", tag == "ok" && gok && canon(got) == canon(wantW),
+				map[string]any{"tag": tag, "err": txt, "text": src, "trim": trim, "at-path": got, "want": wantW})
+		}
 	}
 	var yn yaml.Node
 	if err := yaml.Unmarshal([]byte(val), &yn); err != nil {
